@@ -15,7 +15,7 @@ from koala import hamiltonian as hm
 
 DRIVERS = ("c07",)
 MODEL_TARGETS = ["Model/Ham.vo"]
-TARGETS = ["Proofs/HamFacts.vo"]
+TARGETS = ["Proofs/HamFacts.vo", "Proofs/HamBisect.vo", "Proofs/HamFermion.vo", "Proofs/HamMx.vo", "Proofs/HamFermionMx.vo"]
 LEVEL = "proof"
 TRUST = [
     "hand-written Gallina model coq/Model/Ham.v of hamiltonian.py / lattice.permute_vertices (np.add.at as sequential accumulation, fancy-index assignment "
